@@ -27,7 +27,7 @@ func init() { register(c13{}) }
 func (c13) ID() string    { return "C13" }
 func (c13) Level() string { return "fault_enumeration" }
 func (c13) Rule() string {
-	return "for bodies {empty, 1 B, 100 B text, 5 KiB text, 70 KiB incompressible, 200 KiB multi-block} written through the real cache.CreateLevel/Write/Close (chunked like the CLI's 4 KiB bufio writer): (1) control: the finished entry opens and reads back exactly the body; (2) every byte offset x {8 single-bit masks, 0x00, 0xFF, complement} of the finished file (all offsets for files <= 8 KiB and for the 60-byte header of every file, sampled offsets beyond: quick 300, thorough 20000 per file); (3) every truncation length (all for small files, all header lengths + sampled for big ones); (4) appended tails {1 B, 60 B, a whole second entry}; (5) the entry stored under the name of a different root/data digest and opened with the other key, and opened in place with a different rsum or dsum; (6) crash points through hook H1 on the real write path: after create, after the placeholder header, before every body write, after flate close, after the body hash, before the final header, tear:K for every K in 0..60, after the header - each followed by cache.Open; (7) the real CLI `gts clear|reverse|complement` SIGKILLed at every H1/H2 point of its own write path, and run under strace with ENOSPC/EIO injected into the N-th write(2) on the cache entry for every N; then the identical command run clean over the same cache directory must equal the uncached reference (and a faulted run that exits 0 must have printed the reference output); (8) whole entries through the CLI: a 2.6 MB three-record FASTA stream through gts reverse / gts complement -F fasta twice over one cache directory (the second run is a traced hit), and two different inputs on stdin with the same arguments, each twice, every run equal to its --no-cache reference. Oracle: Open err==nil => ReadAll == exactly the written body; every damaged state must fail to open. non-trivial: a fault was actually applied (state differs from the finished entry); distinct: (body, fault kind, parameter). (9) control cases over {GenBank record, 8-record stream, FASTA, small record, empty} x levels {Create default, 0, 1, 2, 5, 6, 9, Huffman-only} x {a hash per call, one hash with a lookup of another key between Create and Close, one hash with a second entry and a caller digest in between}; the write(2) error injection of (7) also on a 48-record stream (failures in the middle of the body)."
+	return "for bodies {empty, 1 B, 100 B text, 5 KiB text, 70 KiB incompressible, 200 KiB multi-block} written through the real cache.CreateLevel/Write/Close (chunked like the CLI's 4 KiB bufio writer): (1) control: the finished entry opens and reads back exactly the body; (2) every byte offset x {8 single-bit masks, 0x00, 0xFF, complement} of the finished file (all offsets for files <= 8 KiB and for the 60-byte header of every file, sampled offsets beyond: quick 300, thorough 20000 per file); (3) every truncation length (all for small files, all header lengths + sampled for big ones); (4) appended tails {1 B, 60 B, a whole second entry}; (5) the entry stored under the name of a different root/data digest and opened with the other key, and opened in place with a different rsum or dsum; (6) crash points through hook H1 on the real write path: after create, after the placeholder header, before every body write, after flate close, after the body hash, before the final header, tear:K for every K in 0..60, after the header - each followed by cache.Open; (7) the real CLI `gts clear|reverse|complement` SIGKILLed at every H1/H2 point of its own write path, and run under strace with ENOSPC/EIO injected into the N-th write(2) on the cache entry for every N; then the identical command run clean over the same cache directory must equal the uncached reference (and a faulted run that exits 0 must have printed the reference output); (8) whole entries through the CLI: a 2.6 MB three-record FASTA stream through gts reverse / gts complement -F fasta twice over one cache directory (the second run is a traced hit), and two different inputs on stdin with the same arguments, each twice, every run equal to its --no-cache reference. Oracle: Open err==nil => ReadAll == exactly the written body; every damaged state must fail to open. non-trivial: a fault was actually applied (state differs from the finished entry); distinct: (body, fault kind, parameter). (9) control cases over {GenBank record, 8-record stream, FASTA, small record, empty} x levels {Create default, 0, 1, 2, 5, 6, 9, Huffman-only} x {a hash per call, one hash with a lookup of another key between Create and Close, one hash with a second entry and a caller digest in between}; the write(2) error injection of (7) also on a 48-record stream (failures in the middle of the body). Both entries of (9) are opened before either is read; gts insert / gts search are run over one cache directory with two files under one name; every CLI crash point is also taken with SIGTERM and SIGINT (hook action term/int), followed by two clean reruns."
 }
 func (c13) Assumptions() []string {
 	return []string{"crash = process death with the operating system surviving (bytes handed to write(2) persist, bytes buffered in the flate writer are lost); no fsync / power-loss model",
@@ -37,7 +37,7 @@ func (c13) Assumptions() []string {
 func (c13) RequiredBuckets(tier string) []string {
 	return []string{"control:clean-entry-reads-back", "flip:header", "flip:body", "truncate", "extend", "wrong-key:renamed", "wrong-key:in-place",
 		"crash:created", "crash:placeholder", "crash:body-write", "crash:flate-closed", "crash:hashed", "crash:pre-header", "crash:post-header", "tear",
-		"fault:open-failed", "crash:over-an-earlier-entry", "cli:crash-then-clean-run", "cli:multi-MiB-output", "cli:two-inputs,-same-arguments", "body:empty", "body:multi-block", "body:stored-size-block-aligned", "body:several-MiB", "writers:overlapping", "control:level:-1", "control:level:9", "control:caller:1", "control:caller:2", "control:genbank-record", "cli:io-error-in-the-middle-of-a-large-body"}
+		"fault:open-failed", "crash:over-an-earlier-entry", "cli:crash-then-clean-run", "cli:catchable-signal-then-clean-run", "cli:multi-MiB-output", "cli:two-inputs,-same-arguments", "cli:two-files-under-one-name,-same-arguments-and-input", "body:empty", "body:multi-block", "body:stored-size-block-aligned", "body:several-MiB", "writers:overlapping", "control:level:-1", "control:level:9", "control:caller:1", "control:caller:2", "control:genbank-record", "cli:io-error-in-the-middle-of-a-large-body"}
 }
 
 type body struct {
@@ -508,7 +508,7 @@ func (m c13) levelsAndCallers(c *fw.Ctx, x *c13ctx) {
 					continue
 				}
 				enc := fmt.Sprintf("control: %s (%d bytes) stored at level %d, %s", bd.name, len(bd.data), lv,
-					[]string{"a hash of its own for every call", "one hash for all calls, a lookup of another key between Create and Close", "one hash for all calls, a second entry written and the caller's own digest taken between Create and Close"}[mode])
+					[]string{"a hash of its own for every call", "one hash for all calls, a lookup of another key between Create and Close", "one hash for all calls, a second entry written and the caller's own digest taken between Create and Close, both entries opened before either is read"}[mode])
 				c.Begin(enc)
 				c.Count(enc, len(bd.data) > 0)
 				c.Bucket(fmt.Sprintf("control:level:%d", lv))
@@ -566,18 +566,21 @@ func (m c13) levelsAndCallers(c *fw.Ctx, x *c13ctx) {
 					if oerr = f.Close(); oerr != nil {
 						return
 					}
-					var g *cache.File
+					var g, g2 *cache.File
 					if g, oerr = cache.Open(x.dir, hh(), rs, x.dsum); oerr != nil {
 						return
+					}
+					if mode == 2 {
+						// both entries are open before either is read.
+						if g2, oerr = cache.Open(x.dir, hh(), rs2, x.dsum); oerr != nil {
+							return
+						}
 					}
 					got, oerr = io.ReadAll(g)
 					g.Close()
 					if mode == 2 && oerr == nil {
-						if g, oerr = cache.Open(x.dir, hh(), rs2, x.dsum); oerr != nil {
-							return
-						}
-						got2, oerr = io.ReadAll(g)
-						g.Close()
+						got2, oerr = io.ReadAll(g2)
+						g2.Close()
 					}
 				})
 				os.Remove(filepath.Join(x.dir, entryName(rs, x.dsum)))
@@ -838,6 +841,29 @@ func (m c13) cliCrashes(c *fw.Ctx) {
 			if !bytes.Equal(r3.Stdout, ref.Stdout) || r3.Exit != ref.Exit {
 				c.Violate("cli:run-after-recovery-differs:"+p.point, enc, "same as --no-cache", fmt.Sprintf("exit %d, %d bytes", r3.Exit, len(r3.Stdout)))
 			}
+			// the same point with a signal the program could catch (SIGTERM,
+			// SIGINT): however it goes down, the next identical run prints what it
+			// prints without the cache.
+			for _, sig := range []string{"term", "int"} {
+				env.ResetCache()
+				fault := fmt.Sprintf("GTS_VERIF_FAULT=%s:%d:%s", p.point, p.hit, sig)
+				enc := fmt.Sprintf("cli gts %v %s then clean rerun", args, fault)
+				sr := env.Run(args, input, []string{fault}, to)
+				if sr.TimedOut {
+					c.Skip("the run did not end after the signal")
+					continue
+				}
+				c.Hook("cli-signal:" + sig)
+				c.Bucket("cli:catchable-signal-then-clean-run")
+				for pass := 1; pass <= 2; pass++ {
+					rr := env.Run(args, input, nil, to)
+					if rr.TimedOut || !bytes.Equal(rr.Stdout, ref.Stdout) || rr.Exit != ref.Exit {
+						c.Violate("cli:interrupted-run-poisons-cache:"+p.point, enc, fmt.Sprintf("exit %d, %d bytes equal to --no-cache", ref.Exit, len(ref.Stdout)),
+							fmt.Sprintf("run %d after the signal: exit %d, %d bytes", pass, rr.Exit, len(rr.Stdout)))
+						break
+					}
+				}
+			}
 		}
 		m.cliIOErrors(c, env, args, input, ref.Stdout, ref.Exit)
 	}
@@ -885,12 +911,23 @@ func (m c13) cliEntries(c *fw.Ctx, env *cli.Env, phix []byte) {
 		name   string
 		args   []string
 		inputs [][]byte // run in this order over one cache directory, the first one again at the end
+		aux    [][]byte // content of the file the arguments name, step by step (nil: none)
 	}
+	auxPath := env.File("aux.fasta")
+	os.MkdirAll(filepath.Dir(auxPath), 0755)
+	auxA, auxB := []byte(">guest a\nacgtacgtacgtaaaa\n"), []byte(">guest b\nacgtacgtacgtaaac\n")
+	// (small files that differ in their last residue, and files of several
+	// blocks that differ at the very end only.)
+	bigA := append([]byte(">guest big\n"), bytes.Repeat([]byte("acgtacgtacgtacgtacgtacgtacgtacgtacgtacgtacgtacgtacgtacgtacgt\n"), 200)...)
+	bigB := append(append([]byte{}, bigA[:len(bigA)-2]...), 'a', '\n')
 	jobs := []job{
-		{"multi-MiB output", []string{"reverse"}, [][]byte{big.Bytes()}},
-		{"multi-MiB output", []string{"complement", "-F", "fasta"}, [][]byte{big.Bytes()}},
-		{"two inputs, same arguments", []string{"reverse"}, [][]byte{phix, other}},
-		{"two inputs, same arguments", []string{"clear"}, [][]byte{other, phix}},
+		{"multi-MiB output", []string{"reverse"}, [][]byte{big.Bytes()}, nil},
+		{"multi-MiB output", []string{"complement", "-F", "fasta"}, [][]byte{big.Bytes()}, nil},
+		{"two inputs, same arguments", []string{"reverse"}, [][]byte{phix, other}, nil},
+		{"two inputs, same arguments", []string{"clear"}, [][]byte{other, phix}, nil},
+		{"two files under one name, same arguments and input", []string{"insert", "10", auxPath}, [][]byte{phix, phix}, [][]byte{auxA, auxB}},
+		{"two files under one name, same arguments and input", []string{"insert", "10", auxPath}, [][]byte{phix, phix}, [][]byte{bigA, bigB}},
+		{"two files under one name, same arguments and input", []string{"search", auxPath}, [][]byte{phix, phix}, [][]byte{auxB, auxA}},
 	}
 	for _, j := range jobs {
 		if !c.NextShared() {
@@ -903,6 +940,9 @@ func (m c13) cliEntries(c *fw.Ctx, env *cli.Env, phix []byte) {
 		seq := append(append([][]byte{}, j.inputs...), j.inputs...)
 		hits := 0
 		for step, in := range seq {
+			if j.aux != nil {
+				os.WriteFile(auxPath, j.aux[step%len(j.aux)], 0644)
+			}
 			ref := env.Run(append(append([]string{}, j.args...), "--no-cache"), in, nil, to)
 			if ref.TimedOut || ref.Exit != 0 {
 				c.Inconclusive(fmt.Sprintf("reference run of gts %v failed: exit %d %s", j.args, ref.Exit, clipS(string(ref.Stderr), 300)))
